@@ -1067,6 +1067,8 @@ def _events_json(events):
             out.append(['B', e[1].hex()])
         elif e[0] == 'X':
             out.append(['X', e[1]])
+        elif e[0] == 'A':
+            out.append(['A', e[1]])
         else:
             out.append(['E'])
     return out
@@ -1083,6 +1085,8 @@ def _events_unjson(events):
             out.append(('B', bytes.fromhex(e[1])))
         elif e[0] == 'X':
             out.append(('X', e[1]))
+        elif e[0] == 'A':
+            out.append(('A', e[1]))
         else:
             out.append(('E',))
     return out
@@ -1165,6 +1169,93 @@ async def run_client_e2e(ctx, cases, stats):
         await listener.wait_closed()
 
 
+STATUS_CLASS = ['OK', 'SFTPEOFError', 'SFTPNoSuchFile', 'SFTPPermissionDenied', 'SFTPFailure', 'SFTPBadMessage',
+                'SFTPNoConnection', 'SFTPConnectionLost', 'SFTPOpUnsupported', 'SFTPInvalidHandle', 'SFTPNoSuchPath',
+                'SFTPFileAlreadyExists', 'SFTPWriteProtect', 'SFTPNoMedia', 'SFTPNoSpaceOnFilesystem', 'SFTPQuotaExceeded',
+                'SFTPUnknownPrincipal', 'SFTPLockConflict', 'SFTPDirNotEmpty', 'SFTPNotADirectory', 'SFTPInvalidFilename',
+                'SFTPLinkLoop', 'SFTPCannotDelete', 'SFTPInvalidParameter', 'SFTPFileIsADirectory',
+                'SFTPByteRangeLockConflict', 'SFTPByteRangeLockRefused', 'SFTPDeletePending', 'SFTPFileCorrupt',
+                'SFTPOwnerInvalid', 'SFTPGroupInvalid', 'SFTPNoMatchingByteRangeLock']     # docs/api.rst, by status code
+
+
+async def run_status_shapes(ctx, cases, stats):
+    """Every status code in the three well-formed wire shapes (code only, as some servers send it; code with empty
+    message and language; code with message and language) must reach the right waiter as the SAME documented
+    exception class (FX_OK: a normal return), whatever the reply order."""
+    codes = list(range(32)) + [32, 99, 2 ** 32 - 1]
+    for ci, code in enumerate(codes):
+        for v in (VERSIONS if ctx.tier == 'thorough' else [VERSIONS[ci % 4]]):
+            shapes = [u32(code), u32(code) + sstr(b'') + sstr(b''), u32(code) + sstr(b'no such thing') + sstr(b'en')]
+            fixed = [('S', 13), ('S', 15), ('S', 13),
+                     ('R', 101, 2, shapes[0]), ('R', 101, 0, shapes[1]), ('R', 101, 1, shapes[2])]
+            case, info = await C.mem_session(None, v, 0, None, fixed=fixed)
+            cases.append(case)
+            ctx.note_case(('status-shapes', v, code), nontrivial=True)
+            stats['status_shape_sessions'] = stats.get('status_shape_sessions', 0) + 1
+            bad = list(C.oracle_session(v, info))
+            want = STATUS_CLASS[code] if code < len(STATUS_CLASS) else 'SFTPError'
+            for w, shape in ((2, 'code only'), (0, 'code + empty strings'), (1, 'code + message + language')):
+                t = info['tasks'][w]
+                got = t.label()
+                if code == 0:
+                    ok = got == 'value' and t.result() is None
+                else:
+                    ok = got == want and getattr(t.exception(), 'code', None) == code
+                if not ok:
+                    bad.append(f'status code {code} sent as "{shape}" reached caller {w} as {got}'
+                               f'{"" if t.exception() is None else " (" + str(t.exception())[:40] + ")"}, documented is '
+                               f'{"a normal return" if code == 0 else want}')
+            if bad:
+                ctx.failing_input(f'SFTPv{v} client, status code {code} in three wire shapes answered out of order: ' + '; '.join(bad[:3]),
+                                  {'kind': 'client_session', 'driver': 'in-memory', 'version': v, 'start': 0,
+                                   'events': _events_json(info['events']), 'status_code': code})
+
+
+async def run_client_ends_mem(ctx, cases, stats):
+    """Every kind of session end at every position: n requests outstanding, a of them answered first."""
+    rng = ctx.rng
+    ends = [('E',), ('B', b'\x65')] + [('A', k) for k in C.ABORT_KINDS]
+    nmax = 5 if ctx.tier == 'thorough' else 4
+    i = 0
+    for end in ends:
+        for n in range(nmax + 1):
+            for a in sorted(set([0, n // 2, n])):
+                v = VERSIONS[i % 4]
+                i += 1
+                order = list(range(n))
+                rng.shuffle(order)
+                fixed = [('S', rng.choice([13, 15, 17, 3])) for _ in range(n)]
+                fixed += [('R', 101, w, u32(2) + sstr(b'gone') + sstr(b'')) for w in order[:a]]
+                fixed.append(end)
+                case, info = await C.mem_session(None, v, 0, None, fixed=fixed)
+                cases.append(case)
+                ctx.note_case(('client-end', v, end[0], end[-1] if len(end) > 1 else '', n, a), nontrivial=n - a >= 1)
+                stats['end.' + (end[1] if end[0] == 'A' else end[0])] = stats.get('end.' + (end[1] if end[0] == 'A' else end[0]), 0) + 1
+                client_oracle(ctx, 'in-memory', v, info)
+
+
+async def run_client_ends_wire(ctx, stats):
+    rng = ctx.rng
+    combos = [(n, a) for n in (range(0, 5) if ctx.tier == 'thorough' else (0, 1, 3)) for a in sorted(set([0, n // 2]))]
+    i = 0
+    for kind in C.WIRE_END_KINDS:
+        for n, a in combos:
+            v = VERSIONS[i % 4]
+            i += 1
+            info = await C.wire_end_session(rng, v, n, a, kind)
+            ctx.note_case(('client-end-wire', v, kind, n, a), nontrivial=n - a >= 1)
+            stats['wire_end.' + kind] = stats.get('wire_end.' + kind, 0) + 1
+            for t in info['tasks']:
+                stats['wire_end_caller.' + t.label()] = stats.get('wire_end_caller.' + t.label(), 0) + 1
+            bad = C.oracle_session(v, info)
+            if bad:
+                ctx.failing_input(
+                    f'SFTPv{v} client over a real connection (MemWire), {n} requests issued, {a} answered, then {kind}: '
+                    + '; '.join(bad[:3]),
+                    {'kind': 'client_wire_end', 'version': v, 'n': n, 'answered': a, 'end': kind})
+                return
+
+
 def stage_client(ctx):
     cases, stats = [], {}
     try:
@@ -1173,7 +1264,13 @@ def stage_client(ctx):
         # the in-memory plumbing relies on asyncssh.sftp.start_sftp_client / SFTPClient._handler
         ctx.cov['oracle']['client_in_memory'] = 'unavailable: ' + repr(e)
         ctx.broke('harness-plumbing:client-in-memory', repr(e))
+    try:
+        sshutil.run(run_status_shapes(ctx, cases, stats), timeout=1500)
+        sshutil.run(run_client_ends_mem(ctx, cases, stats), timeout=1500)
+    except (TypeError, AttributeError, RuntimeError) as e:
+        ctx.broke('harness-plumbing:client-in-memory', repr(e))
     n_mem = len(cases)
+    sshutil.run(run_client_ends_wire(ctx, stats), timeout=1500)
     sshutil.run(run_client_e2e(ctx, cases, stats), timeout=1500)
     for k, x in sorted(stats.items()):
         ctx.count('client.' + k, x)
@@ -1183,7 +1280,8 @@ def stage_client(ctx):
                         ty='Z * Z * list cev * list (hkey * option Z * option (res cval)) * bool', shard=40)
     report(ctx, 'client_sessions', bad, cases)
     need = ['caller.value', 'caller.SFTPBadMessage', 'caller.pending', 'caller.SFTPConnectionLost', 'caller.SFTPNoConnection',
-            'caller.cancelled', 'late_reply_to_cancelled',
+            'caller.cancelled', 'late_reply_to_cancelled', 'status_shape_sessions', 'end.E', 'end.connlost', 'end.disconnect',
+            'end.reset', 'wire_end.reset', 'wire_end.fin', 'wire_end.srv_disconnect', 'wire_end.chan_close',
             'wrapped_sessions', 'sessions_failed', 'e2e_sessions']
     missing = [k for k in need if not stats.get(k)]
     if missing:
@@ -1317,6 +1415,13 @@ def replay(rp):
     elif kind == 'client_session':
         # sessions recorded by the end-to-end driver are replayed on the in-memory driver (same client code)
         sshutil.run(replay_client(rp, q))
+    elif kind == 'client_wire_end':
+        import random
+        info = sshutil.run(C.wire_end_session(random.Random(0), rp['version'], rp['n'], rp['answered'], rp['end']))
+        bad = C.oracle_session(rp['version'], info)
+        print('callers:', [t.label() for t in info['tasks']])
+        if bad:
+            q.failing_input('; '.join(bad), {})
     elif kind in ('errno_status', 'sftp_status', 'client_error_code'):
         class T:
             pass
